@@ -597,6 +597,14 @@ def run(tier):
               'the command has just accepted, so the file written from it '
               'holds an accepted input (shared with the echo part of '
               'C05.R4)', sub05b)
+    from . import c05 as _c05w
+    sub05w = Check('C05', 'other', tier, [], [])
+    chk.guard(_c05w.rule_r9, sub05w, prog)
+    chk.adopt('C06.R11', 'a failed write of the output file is not '
+              'swallowed (no status value that a caller may ignore, no '
+              'return inside finally): after an interrupt the file holds '
+              'the LAST accepted input, not an older one (shared with '
+              'C05.R9)', sub05w)
     extra = None
     if tier == 'thorough':
         from .. import selftest
